@@ -659,14 +659,14 @@ Section UPlan.
   Proof.
     intros HR. pose proof (rel_mk t t' [] HR) as HI. unfold invariants_ok. rewrite bound_invs_u, !all_hold_app.
     cbn [utfr_compile p_invs]. rewrite all_hold_filter_true. f_equal.
-    - apply all_hold_map2. intros x Hx. apply Htr; [|exact HI]. unfold conds_of_u. apply in_or_app. right. apply in_or_app. right. exact Hx.
+    - apply all_hold_map2. intros x Hx. apply Htr; [|exact HI|reflexivity]. unfold conds_of_u. apply in_or_app. right. apply in_or_app. right. exact Hx.
     - apply all_hold_same. intros x Hx. apply (eval_uclean ot false x _ _ HI), bound_invs_clean, Hx.
   Qed.
 
   Lemma goals_rel t t' : utfr_rel P t t' -> goals_hold false P' t' = goals_hold false P t.
   Proof.
     intros HR. pose proof (rel_mk t t' [] HR) as HI. unfold goals_hold. cbn [utfr_compile p_goals]. unfold add_goals.
-    rewrite all_hold_filter_true. apply all_hold_map2. intros x Hx. apply Htr; [|exact HI].
+    rewrite all_hold_filter_true. apply all_hold_map2. intros x Hx. apply Htr; [|exact HI|reflexivity].
     unfold conds_of_u. apply in_or_app. right. apply in_or_app. left. exact Hx.
   Qed.
 
@@ -682,11 +682,11 @@ Section UPlan.
     set (I := mk_interp P s (zip_params (a_params a) args)). set (I' := mk_interp P' s' (zip_params (a_params a) args)).
     pose proof (rel_mk s s' (zip_params (a_params a) args) HR) as HI. fold I I' in HI.
     rewrite all_hold_add_pres, (all_hold_map2 I I' tr (a_pre a))
-      by (intros x Hx; apply Htr; [apply (in_conds_pre i a x Hin Hx) | exact HI]).
-    destruct (negb (all_hold false I (a_pre a))); [exact Logic.I|].
+      by (intros x Hx; apply Htr; [apply (in_conds_pre i a x Hin Hx) | exact HI | reflexivity]).
+    destruct (all_hold false I (a_pre a)) eqn:Epre; cbn [negb]; [|exact Logic.I].
     destruct (u_effects_res tr smp P Hsmp I I' (a_effs a) HI eq_refl) as (E1 & E2 & E3).
-    { intros e He. split; [apply Hflat, He|]. split; [apply (Hdef s i a args e HG Hin He)|].
-      apply Htr; [apply (in_conds_eff i a e Hin He) | exact HI]. }
+    { intros e He. split; [apply Hflat, He|]. split; [apply (Hdef s i a args e HG Hin He Epre)|].
+      apply Htr; [apply (in_conds_eff i a e Hin He) | exact HI | reflexivity]. }
     unfold finish_step. rewrite !collect_res_spec, E1, E2, E3.
     set (acts := acts_of (eres_of I (a_effs a))).
     assert (Hfired : fired false I (a_effs a) = Some acts).
@@ -696,7 +696,7 @@ Section UPlan.
     { intros x t Hx Ht. unfold acts in Hx.
       rewrite (eres_novars I (a_effs a)) in Hx by (intros e He; apply (eff_flat_novars P), Hflat, He).
       apply in_acts_of in Hx. apply in_map_iff in Hx. destruct Hx as [e [Ee He]].
-      destruct (Hdef s i a args e HG Hin He) as ((vs & Ha) & (cb & Hc) & (v & Hv & Hty)). fold I in Ha, Hc, Hv, Hty.
+      destruct (Hdef s i a args e HG Hin He Epre) as ((vs & Ha) & (cb & Hc) & (v & Hv & Hty)). fold I in Ha, Hc, Hv, Hty.
       unfold eval_effect in Ee. rewrite Ha, Hc in Ee. destruct cb; [|discriminate]. rewrite Hv in Ee.
       inversion Ee; subst x; clear Ee. cbn [ae_key fst ae_val] in *. rewrite Ht in Hty.
       split; [|exact Hty]. specialize (Hflat e He). unfold eff_flat in Hflat. rewrite Ht in Hflat.
@@ -820,7 +820,7 @@ Proof.
 Qed.
 
 Lemma tr_ok_id P : (forall e, In e (conds_of_u P) -> uclean (otype P) e = true) -> tr_ok (fun e => e) P.
-Proof. intros H e He I I' HR. apply (eval_uclean (otype P) false e I I' HR), H, He. Qed.
+Proof. intros H e He I I' HR _. apply (eval_uclean (otype P) false e I I' HR), H, He. Qed.
 
 Lemma utfr_nonvacuous :
   smp_exact UtfrWitness.idf /\ utfr_wf UtfrWitness.idf UtfrWitness.idf UtfrWitness.Pn = true /\
@@ -838,7 +838,7 @@ Proof.
   split.
   { apply tr_ok_id. intros e He. vm_compute in He. repeat (destruct He as [<-|He]; [reflexivity|]). destruct He. }
   split.
-  { intros s i a args e [Hb Hq] [Hin|[]] He. inversion Hin; subst i a; clear Hin.
+  { intros s i a args e [Hb Hq] [Hin|[]] He _. inversion Hin; subst i a; clear Hin.
     destruct He as [<-|[<-|[]]].
     - split; [exists []; reflexivity|]. split.
       + destruct (Hb []) as [b Eb]. exists b. cbn. rewrite Eb. reflexivity.
@@ -904,4 +904,315 @@ Lemma u_complete tr smp P G :
 Proof.
   intros H1 H2 H3 H4 H5 H6 H7 s s' pi HG HR H.
   rewrite (u_valid_plan tr smp P G H1 H2 H3 H4 H5 H6 H7 s s' pi HG HR). exact H.
+Qed.
+
+(* ------------------------------------------------------------------ the reference walker [utr] is exact on the flat fragment *)
+Lemma q_fold_none_all (g : N -> option bool) l : l <> [] -> (forall x, In x l -> g x = None) ->
+  q_fold false true (map g l) = None.
+Proof. destruct l as [|x l]; [contradiction|]. intros _ H. cbn [map q_fold]. rewrite (H x (or_introl eq_refl)). reflexivity. Qed.
+
+Lemma q_fold_all_some (b : N -> bool) l : q_fold false true (map (fun u => Some (b u)) l) = Some (existsb b l).
+Proof.
+  induction l as [|x l IH]; [reflexivity|]. cbn [map q_fold existsb]. rewrite IH.
+  destruct (b x); reflexivity.
+Qed.
+
+Lemma instances_one I v ty : instances I [(v, ty)] = map (fun o => bind_var I v o) (objs I ty).
+Proof. cbn [instances]. induction (objs I ty) as [|o l IH]; [reflexivity|]. cbn [flat_map map app]. rewrite IH. reflexivity. Qed.
+
+Lemma simple_term_bind sc I v u x : simple_term v x = true -> eval sc x (bind_var I v u) = eval sc x I.
+Proof.
+  destruct x; try discriminate; try reflexivity. cbn [simple_term eval bind_var var]. intros H.
+  apply negb_true_iff in H. rewrite H. reflexivity.
+Qed.
+
+Lemma simple_term_uclean ot v x : simple_term v x = true -> uclean ot x = true.
+Proof. destruct x; try discriminate; reflexivity. Qed.
+
+Lemma evals_l_simple_bind I v u l : forallb (simple_term v) l = true ->
+  evals_l false (bind_var I v u) l = evals_l false I l.
+Proof.
+  induction l as [|x l IH]; intros H; [reflexivity|]. cbn [forallb] in H. apply andb_true_iff in H. destruct H as [H1 H2].
+  cbn [evals_l]. rewrite (simple_term_bind false I v u x H1), (IH H2). reflexivity.
+Qed.
+
+Lemma existsb_pick (c w : N) l : In c l -> existsb (fun u => (u =? w)%N && (c =? u)%N) l = (c =? w)%N.
+Proof.
+  intros Hc. destruct (c =? w)%N eqn:E.
+  - apply N.eqb_eq in E. subst w. apply existsb_exists. exists c. split; [exact Hc|]. rewrite N.eqb_refl. reflexivity.
+  - apply not_true_iff_false. intros H. apply existsb_exists in H. destruct H as [u [_ H]].
+    apply andb_true_iff in H. destruct H as [H1 H2]. apply N.eqb_eq in H1, H2. subst. rewrite N.eqb_refl in E. discriminate.
+Qed.
+
+Section UtrExact.
+  Variable ot : N -> option N.
+  Variable fv : N -> N.
+
+  (* one flat read: Exists v. And(Equals(v, t) / Equals(t, v), o(a, v)) has the value and the definedness of
+     Equals(o(a), t) / Equals(t, o(a)) *)
+  Lemma flat_read_exact I I' f ty a t (swap : bool) :
+    urel_interp ot I I' -> ot f = Some ty -> objs I ty <> [] ->
+    forallb (simple_term (fv f)) a = true -> simple_term (fv f) t = true ->
+    eval false (EExists [(fv f, ty)]
+                  (EAnd [if swap then EEquals t (EVar (fv f) ty) else EEquals (EVar (fv f) ty) t;
+                         EFluent f (a ++ [EVar (fv f) ty])])) I' =
+    eval false (if swap then EEquals t (EFluent f a) else EEquals (EFluent f a) t) I.
+  Proof.
+    intros HR Hf Hne Ha Ht. pose proof HR as (_ & _ & _ & Ho & _ & Hob).
+    set (v := fv f) in *.
+    assert (Ea : evals_l false I' a = evals_l false I a).
+    { apply (evals_l_uclean ot I I' a HR). apply forallb_forall. intros x Hx. rewrite forallb_forall in Ha.
+      apply (simple_term_uclean ot v), Ha, Hx. }
+    assert (Et : eval false t I' = eval false t I) by (apply (eval_uclean ot false t I I' HR), (simple_term_uclean ot v), Ht).
+    (* the value of one instance *)
+    assert (Inst : forall u,
+      as_bool (eval false (EAnd [if swap then EEquals t (EVar v ty) else EEquals (EVar v ty) t;
+                                 EFluent f (a ++ [EVar v ty])]) (bind_var I' v u)) =
+      match eval false t I, (match evals_l false I a with Some vs => fl I' f (vs ++ [VObj u]) | None => None end) with
+      | Some (VObj w), Some (VBool b2) => Some ((u =? w)%N && b2)
+      | _, _ => None
+      end).
+    { intros u. rewrite eval_EAnd. cbn [ebools].
+      assert (E1 : eval false (if swap then EEquals t (EVar v ty) else EEquals (EVar v ty) t) (bind_var I' v u) =
+                   match eval false t I with Some (VObj w) => Some (VBool (u =? w)%N) | _ => None end).
+      { destruct swap; rewrite eval_EEquals, (simple_term_bind false I' v u t Ht), Et; cbn [eval bind_var var];
+          rewrite N.eqb_refl; destruct (eval false t I) as [[| |w]|]; try reflexivity. rewrite N.eqb_sym. reflexivity. }
+      assert (E2 : eval false (EFluent f (a ++ [EVar v ty])) (bind_var I' v u) =
+                   match evals_l false I a with Some vs => fl I' f (vs ++ [VObj u]) | None => None end).
+      { rewrite eval_EFluent, <- evals_l_evals_u, evals_l_app, (evals_l_simple_bind I' v u a Ha), Ea.
+        cbn [evals_l eval bind_var var]. rewrite N.eqb_refl. destruct (evals_l false I a); reflexivity. }
+      rewrite E1, E2. destruct (eval false t I) as [[| |w]|]; try reflexivity.
+      cbn [as_bool]. destruct (match evals_l false I a with Some vs => fl I' f (vs ++ [VObj u]) | None => None end)
+        as [[b2| |]|]; try reflexivity. cbn [as_bool forallb]. rewrite andb_true_r. reflexivity. }
+    assert (AllNone : (forall u, In u (objs I ty) ->
+                match eval false t I, (match evals_l false I a with Some vs => fl I' f (vs ++ [VObj u]) | None => None end) with
+                | Some (VObj w), Some (VBool b2) => Some ((u =? w)%N && b2)
+                | _, _ => None
+                end = None) ->
+              eval false (EExists [(v, ty)]
+                  (EAnd [if swap then EEquals t (EVar v ty) else EEquals (EVar v ty) t; EFluent f (a ++ [EVar v ty])])) I' = None).
+    { intros H. rewrite eval_EExists, instances_one, map_map, Ho, (map_ext _ _ Inst), (q_fold_none_all _ _ Hne H). reflexivity. }
+    destruct (evals_l false I a) as [vs|] eqn:Era.
+    - specialize (Hob f ty vs Hf). destruct (fl I f vs) as [[| |c]|] eqn:Efl; try contradiction.
+      + destruct Hob as [Hc Hob]. destruct (eval false t I) as [[| |w]|] eqn:Ert.
+        * rewrite AllNone by (intros; reflexivity).
+          destruct swap; rewrite eval_EEquals, eval_EFluent, <- evals_l_evals_u, Era, Efl, Ert; reflexivity.
+        * rewrite AllNone by (intros; reflexivity).
+          destruct swap; rewrite eval_EEquals, eval_EFluent, <- evals_l_evals_u, Era, Efl, Ert; reflexivity.
+        * rewrite eval_EExists, instances_one, map_map, Ho, (map_ext _ _ Inst).
+          rewrite (map_ext_in _ (fun u => Some ((u =? w)%N && (c =? u)%N))) by (intros u Hu; rewrite (Hob u Hu); reflexivity).
+          rewrite q_fold_all_some, (existsb_pick c w _ Hc).
+          destruct swap; rewrite eval_EEquals, eval_EFluent, <- evals_l_evals_u, Era, Efl, Ert; [rewrite N.eqb_sym|]; reflexivity.
+        * rewrite AllNone by (intros; reflexivity).
+          destruct swap; rewrite eval_EEquals, eval_EFluent, <- evals_l_evals_u, Era, Efl, Ert; reflexivity.
+      + rewrite AllNone by (intros u Hu; rewrite (Hob u Hu); destruct (eval false t I) as [[| |?]|]; reflexivity).
+        destruct swap; rewrite eval_EEquals, eval_EFluent, <- evals_l_evals_u, Era, Efl;
+          destruct (eval false t I) as [[| |?]|]; reflexivity.
+    - rewrite AllNone by (intros u Hu; destruct (eval false t I) as [[| |?]|]; reflexivity).
+      destruct swap; rewrite eval_EEquals, eval_EFluent, <- evals_l_evals_u, Era;
+        destruct (eval false t I) as [[| |?]|]; reflexivity.
+  Qed.
+End UtrExact.
+
+Section UtrExact2.
+  Variable ot : N -> option N.
+  Variable fv : N -> N.
+  Variable ob : N -> list N.
+  (* the type of every object fluent has an object (otherwise Exists over the empty type is false where the original
+     read is undefined) *)
+  Hypothesis Hinh : forall f t, ot f = Some t -> ob t <> [].
+
+  Definition urel_ob (J J' : interp) : Prop := urel_interp ot J J' /\ objs J = ob.
+
+  Lemma urel_instances_ob vs : forall I I', urel_ob I I' -> Forall2 urel_ob (instances I vs) (instances I' vs).
+  Proof.
+    induction vs as [|[v t] vs IH]; intros I I' H; simpl.
+    - constructor; [exact H | constructor].
+    - assert (HH := H). destruct H as [(H1 & H2 & H3 & H4 & H5 & H6) Hob]. rewrite H4.
+      induction (objs I t) as [|o os IHo]; simpl; [constructor|].
+      apply Forall2_app; [|exact IHo]. apply IH. destruct HH as [HR HO]. split; [apply urel_bind; exact HR | exact HO].
+  Qed.
+
+  Lemma flat_equals_l I I' f args t : urel_ob I I' -> flat ot fv (EEquals (EFluent f args) t) = true ->
+    eval false (utr ot fv (EEquals (EFluent f args) t)) I' = eval false (EEquals (EFluent f args) t) I.
+  Proof.
+    intros [HR Hob] Hfl. cbn [utr flat] in *. unfold flat_read. destruct (ot f) as [ty|] eqn:Ef.
+    - rewrite Hfl. apply andb_true_iff in Hfl. destruct Hfl as [Ha Ht].
+      apply (flat_read_exact ot fv I I' f ty args t false HR Ef); [rewrite Hob; apply (Hinh f ty Ef) | exact Ha | exact Ht].
+    - exact (eval_uclean ot false _ I I' HR Hfl).
+  Qed.
+
+  Lemma flat_equals_r I I' f args t : urel_ob I I' ->
+    match t with EFluent _ _ => False | _ => True end ->
+    flat ot fv (EEquals t (EFluent f args)) = true ->
+    eval false (utr ot fv (EEquals t (EFluent f args))) I' = eval false (EEquals t (EFluent f args)) I.
+  Proof.
+    intros [HR Hob] Hnt Hfl.
+    assert (Eu : utr ot fv (EEquals t (EFluent f args)) =
+                 match flat_read ot fv f args t true with Some x => x | None => EEquals t (EFluent f args) end)
+      by (destruct t; try contradiction; reflexivity).
+    assert (Efl : flat ot fv (EEquals t (EFluent f args)) =
+                  match ot f with
+                  | Some _ => forallb (simple_term (fv f)) args && simple_term (fv f) t
+                  | None => uclean ot (EEquals t (EFluent f args))
+                  end)
+      by (destruct t; try contradiction; reflexivity).
+    rewrite Eu. rewrite Efl in Hfl. unfold flat_read. destruct (ot f) as [ty|] eqn:Ef.
+    - rewrite Hfl. apply andb_true_iff in Hfl. destruct Hfl as [Ha Ht].
+      apply (flat_read_exact ot fv I I' f ty args t true HR Ef); [rewrite Hob; apply (Hinh f ty Ef) | exact Ha | exact Ht].
+    - exact (eval_uclean ot false _ I I' HR Hfl).
+  Qed.
+
+  Lemma ebools_utr I I' l :
+    Forall (fun x => forall I I', urel_ob I I' -> flat ot fv x = true -> eval false (utr ot fv x) I' = eval false x I) l ->
+    urel_ob I I' -> forallb (flat ot fv) l = true -> ebools false I' (map (utr ot fv) l) = ebools false I l.
+  Proof.
+    intros HF HR. induction HF as [|x l Hx _ IH]; intros Hfl; [reflexivity|]. cbn [forallb] in Hfl.
+    apply andb_true_iff in Hfl. destruct Hfl as [H1 H2]. cbn [map ebools]. rewrite (Hx I I' HR H1), (IH H2). reflexivity.
+  Qed.
+
+  Theorem utr_exact e : forall I I', urel_ob I I' -> flat ot fv e = true ->
+    eval false (utr ot fv e) I' = eval false e I.
+  Proof.
+    induction e using expr_ind'; intros I I' HR Hfl;
+      try exact (eval_uclean ot false _ I I' (proj1 HR) Hfl).
+    - (* EAnd *) cbn [utr flat] in *. rewrite !eval_EAnd, (ebools_utr I I' l H HR Hfl). reflexivity.
+    - (* EOr *) cbn [utr flat] in *. rewrite !eval_EOr, (ebools_utr I I' l H HR Hfl). reflexivity.
+    - cbn [utr flat] in *. rewrite !eval_ENot, (IHe I I' HR Hfl). reflexivity.
+    - cbn [utr flat] in *. apply andb_true_iff in Hfl. destruct Hfl as [F1 F2].
+      rewrite !eval_EImplies, (IHe1 I I' HR F1), (IHe2 I I' HR F2). reflexivity.
+    - cbn [utr flat] in *. apply andb_true_iff in Hfl. destruct Hfl as [F1 F2].
+      rewrite !eval_EIff, (IHe1 I I' HR F1), (IHe2 I I' HR F2). reflexivity.
+    - cbn [utr flat] in *. rewrite !eval_EExists. f_equal.
+      rewrite (F2_map_eq urel_ob (fun J => as_bool (eval false e J)) (fun J => as_bool (eval false (utr ot fv e) J))
+                 _ _ (urel_instances_ob vs I I' HR)); [reflexivity|].
+      intros x y Hxy. rewrite (IHe x y Hxy Hfl). reflexivity.
+    - cbn [utr flat] in *. rewrite !eval_EForall. f_equal.
+      rewrite (F2_map_eq urel_ob (fun J => as_bool (eval false e J)) (fun J => as_bool (eval false (utr ot fv e) J))
+                 _ _ (urel_instances_ob vs I I' HR)); [reflexivity|].
+      intros x y Hxy. rewrite (IHe x y Hxy Hfl). reflexivity.
+    - (* EEquals *)
+      destruct e1; try (destruct e2; try exact (eval_uclean ot false _ I I' (proj1 HR) Hfl);
+                        apply flat_equals_r; [exact HR | exact Logic.I | exact Hfl]).
+      apply flat_equals_l; assumption.
+  Qed.
+End UtrExact2.
+
+(* [utr] (followed by an exact simplifier) satisfies [tr_ok] *)
+Lemma utr_tr_ok smp P fv : smp_exact smp -> conds_flat P fv = true -> types_inhabited P = true ->
+  tr_ok (fun e => smp (utr (otype P) fv e)) P.
+Proof.
+  intros Hsmp Hfl Hin e He I I' HR Hob. rewrite Hsmp.
+  apply (utr_exact (otype P) fv (objs_of P)).
+  - intros f t Hf. unfold types_inhabited in Hin. rewrite forallb_forall in Hin.
+    specialize (Hin (f, t) (lookupN_In _ _ _ Hf)). cbn [snd] in Hin. destruct (objs_of P t); [discriminate | discriminate].
+  - split; assumption.
+  - unfold conds_flat in Hfl. rewrite forallb_forall in Hfl. apply Hfl, He.
+Qed.
+
+(* the statement of the expression-level theorem for one pair of interpretations *)
+Lemma utr_exact_interp ot fv e I I' :
+  urel_interp ot I I' -> (forall f t, ot f = Some t -> objs I t <> []) -> flat ot fv e = true ->
+  eval false (utr ot fv e) I' = eval false e I.
+Proof. intros HR Hin Hfl. apply (utr_exact ot fv (objs I) Hin e I I'); [split; [exact HR | reflexivity] | exact Hfl]. Qed.
+
+(* the plan-level theorems with the reference walker in place of the abstract one *)
+Section UReference.
+  Variable smp : expr -> expr.
+  Variable fv : N -> N.
+  Variable P : problem.
+  Variable G : state -> Prop.
+  Notation trr := (fun e => smp (utr (otype P) fv e)).
+  Hypothesis Hsmp : smp_exact smp.
+  Hypothesis Hfl : conds_flat P fv = true.
+  Hypothesis Hinh : types_inhabited P = true.
+  Hypothesis Hwf : utfr_wf trr smp P = true.
+  Hypothesis Hdef : effects_defined P G.
+  Hypothesis Hone : one_value P G.
+  Hypothesis Hcl : closed P G.
+  Hypothesis Hid : unique_ids P.
+
+  Theorem u_valid_plan_reference s s' pi : G s -> utfr_rel P s s' ->
+    valid_plan false (utfr_compile trr smp P) s' pi = valid_plan false P s pi.
+  Proof. apply (u_valid_plan trr smp P G Hsmp Hwf (utr_tr_ok smp P fv Hsmp Hfl Hinh) Hdef Hone Hcl Hid). Qed.
+
+  Theorem u_sound_reference s s' pi : G s -> utfr_rel P s s' ->
+    valid_plan false (utfr_compile trr smp P) s' pi = true -> valid_plan false P s pi = true.
+  Proof. intros HG HR H. rewrite <- (u_valid_plan_reference s s' pi HG HR). exact H. Qed.
+
+  Theorem u_complete_reference s s' pi : G s -> utfr_rel P s s' ->
+    valid_plan false P s pi = true -> valid_plan false (utfr_compile trr smp P) s' pi = true.
+  Proof. intros HG HR H. rewrite (u_valid_plan_reference s s' pi HG HR). exact H. Qed.
+End UReference.
+
+(* non-vacuity with an object read: type 0 = {1, 2}; o(x : type 0) : type 0 (fluent 0), g Boolean (fluent 1);
+   action 0 (parameter 7):  pre o(x) == 1;  eff o(x) := 2, g := true;  goals g and o(1) == 2 *)
+Module UtfrRef.
+  Definition px : expr := EParam 7%N.
+  Definition ox : expr := EFluent 0%N [px].
+  Definition oeffx : effect :=
+    {| e_fl := 0%N; e_args := [px]; e_val := EObj 2%N; e_cond := EBool true; e_kind := KAssign; e_vars := [];
+       e_isbool := false |}.
+  Definition ar : action :=
+    {| a_params := [7%N]; a_pre := [EEquals ox (EObj 1%N)]; a_effs := [oeffx; UtfrWitness.geff] |}.
+  Definition Pr : problem :=
+    {| p_objs := [(0%N, [1%N; 2%N])]; p_ifun := [];
+       p_fluents := [{| fd_id := 0%N; fd_sig := [0%N]; fd_ty := FObj 0%N |}; {| fd_id := 1%N; fd_sig := []; fd_ty := FBool |}];
+       p_actions := [(0%N, ar)];
+       p_goals := [EFluent 1%N []; EEquals (EFluent 0%N [EObj 1%N]) (EObj 2%N)]; p_invs := [] |}.
+  Definition sr : state := fun f a => match f with 0%N => Some (VObj 1%N) | _ => Some (VBool false) end.
+  Definition fvr (f : N) : N := (100 + f)%N.
+  Definition Gr (s : state) : Prop := True.
+  Definition planr : list (N * list value) := [(0%N, [VObj 1%N])].
+  Definition trr (e : expr) : expr := UtfrWitness.idf (utr (otype Pr) fvr e).
+  Definition Pr' : problem := utfr_compile trr UtfrWitness.idf Pr.
+End UtfrRef.
+
+Lemma utfr_reference_nonvacuous :
+  smp_exact UtfrWitness.idf /\ conds_flat UtfrRef.Pr UtfrRef.fvr = true /\ types_inhabited UtfrRef.Pr = true /\
+  utfr_wf UtfrRef.trr UtfrWitness.idf UtfrRef.Pr = true /\
+  effects_defined UtfrRef.Pr UtfrRef.Gr /\ one_value UtfrRef.Pr UtfrRef.Gr /\ closed UtfrRef.Pr UtfrRef.Gr /\
+  unique_ids UtfrRef.Pr /\ UtfrRef.Gr UtfrRef.sr /\
+  utfr_rel UtfrRef.Pr UtfrRef.sr (enc_state UtfrRef.Pr UtfrRef.sr) /\
+  valid_plan false UtfrRef.Pr UtfrRef.sr UtfrRef.planr = true /\
+  valid_plan false UtfrRef.Pr' (enc_state UtfrRef.Pr UtfrRef.sr) UtfrRef.planr = true /\
+  valid_plan false UtfrRef.Pr' (enc_state UtfrRef.Pr UtfrRef.sr) [(0%N, [VObj 2%N]); (0%N, [VObj 1%N])] = true /\
+  valid_plan false UtfrRef.Pr' (enc_state UtfrRef.Pr UtfrRef.sr) [(0%N, [VObj 1%N]); (0%N, [VObj 1%N])] = false /\
+  map (fun ia => a_pre (snd ia)) (p_actions UtfrRef.Pr') =
+    [[EExists [(100%N, 0%N)]
+        (EAnd [EEquals (EVar 100%N 0%N) (EObj 1%N); EFluent 0%N [EParam 7%N; EVar 100%N 0%N]])]].
+Proof.
+  split; [intros e I; reflexivity|]. split; [vm_compute; reflexivity|]. split; [vm_compute; reflexivity|].
+  split; [vm_compute; reflexivity|].
+  split.
+  { intros s i a args e _ [Hin|[]] He Hpre. inversion Hin; subst i a; clear Hin.
+    set (I := mk_interp UtfrRef.Pr s (zip_params (a_params UtfrRef.ar) args)) in *.
+    assert (Hp : exists p, par I 7%N = Some p).
+    { unfold all_hold in Hpre. cbn [UtfrRef.ar a_pre forallb] in Hpre. unfold holds in Hpre.
+      unfold UtfrRef.ox, UtfrRef.px in Hpre. rewrite eval_EEquals, eval_EFluent in Hpre. cbn [evals eval] in Hpre.
+      destruct (par I 7%N) as [p|]; [exists p; reflexivity | discriminate]. }
+    destruct Hp as [p Hp]. destruct He as [<-|[<-|[]]].
+    - split; [exists [p]; cbn [UtfrRef.oeffx e_args UtfrRef.px evals_l eval]; rewrite Hp; reflexivity|].
+      split; [exists true; reflexivity|]. exists (VObj 2%N). split; [reflexivity|].
+      change (otype UtfrRef.Pr (e_fl UtfrRef.oeffx)) with (Some 0%N). exists 2%N. split; [reflexivity|].
+      right; left; reflexivity.
+    - split; [exists []; reflexivity|]. split; [exists true; reflexivity|]. exists (VBool true). split; [reflexivity|].
+      cbn. exists true; reflexivity. }
+  split.
+  { intros s i a args acts f t x v1 v2 _ [Hin|[]] Hf Hot H1 H2. inversion Hin; subst i a; clear Hin.
+    change (fired false ?I ?l) with (collect_res (eres_of I l)) in Hf. rewrite collect_res_spec in Hf.
+    destruct (has_err _); [discriminate|]. inversion Hf; subst acts; clear Hf.
+    assert (Hv : forall e, In e (a_effs UtfrRef.ar) -> e_vars e = []) by (intros e [<-|[<-|[]]]; reflexivity).
+    destruct (in_avals_effect _ _ _ _ Hv H1) as (e1 & He1 & Hk1 & x1 & Ex1 & <-).
+    destruct (in_avals_effect _ _ _ _ Hv H2) as (e2 & He2 & Hk2 & x2 & Ex2 & <-). cbn [fst] in Hk1, Hk2.
+    assert (E : forall e, In e (a_effs UtfrRef.ar) -> e_fl e = f -> e = UtfrRef.oeffx).
+    { intros e [<-|[<-|[]]] Ef; [reflexivity|]. change (1%N = f) in Ef. rewrite <- Ef in Hot. exfalso. clear -Hot.
+      vm_compute in Hot. discriminate Hot. }
+    rewrite (E e1 He1 Hk1) in Ex1. rewrite (E e2 He2 Hk2) in Ex2. rewrite Ex1 in Ex2. inversion Ex2. reflexivity. }
+  split; [intros s aid a args t _ _ _; exact Logic.I|].
+  split; [repeat constructor; intros []|]. split; [exact Logic.I|].
+  split.
+  { apply enc_rel. intros f t a Hf. unfold otype in Hf. cbn in Hf.
+    destruct (f =? 0)%N eqn:E0; [|discriminate]. apply N.eqb_eq in E0; subst f; inversion Hf; cbn. left; reflexivity. }
+  repeat split; vm_compute; reflexivity.
 Qed.
